@@ -2,18 +2,18 @@ CONSTANTS
   LeafTypes = {"i", "u", "l", "uc"}
   GridSel = "g2"
   UnOps = {"+", "-", "~", "!"}
-  CastTypes = {"B", "sc", "us", "u", "l"}
-  BinOps = {"+", "-", "*", "/", "<<", ">>", "&", "<", "==", "&&"}
-  UseCond = FALSE
+  CastTypes = {"B", "sc", "us", "u", "l", "ull"}
+  BinOps = {"+", "-", "*", "/", "%", "<<", ">>", "&", "|", "^", "<", ">=", "==", "&&", "||"}
+  UseCond = TRUE
   LvTypes = {}
   AsgOps = {"=", "+=", "-=", "*=", "/=", "%=", "<<=", ">>=", "&=", "|=", "^="}
   IncOps = {}
   UseEnum = FALSE
   UseLit = FALSE
-  BfWidths = {1, 7, 32}
+  BfWidths = {1, 7, 31, 32}
   MaxDepth = 1
-  MaxLeaves = 2
-  MaxStack = 2
+  MaxLeaves = 3
+  MaxStack = 3
   MinParen = FALSE
   TwoPhase = FALSE
   Rnd = FALSE
